@@ -3,7 +3,7 @@ from __future__ import annotations
 
 from collections import Counter
 
-from .. import pj, refdec, wire, workloads
+from .. import gen, pj, refdec, wire, workloads
 from .. import terms as T
 
 ID = "C03"
